@@ -66,7 +66,7 @@ PROPS = {
                 "IpHeaders::*_lax x3, LaxMacsecSlice, UdpSlice::from_slice_lax, Ipv6Extensions(Slice)::from_slice_lax) compared with "
                 "(a) the strict sibling on the same bytes (incl. stop error = strict error where both stop at one single-description fault) "
                 "and (b) the reference decoder in lax mode; non-trivial = decoded past "
-                "the first header or recorded a stop error; distinct = distinct (entry point, layer sequence, stop error class, stop layer); engine big: the same judgement on packets whose true sizes lie around 2^16 (65535 -/+ header sizes, 65536, 70 000, 131 072: where 16 bit length arithmetic would wrap); engines bytesweep / wordsweep: one header byte of a clean packet through all 256 values, one aligned 16 bit header word through all 65 536 values; where strict parsing succeeds the packet-level accessor methods of the lax result must answer like those of the strict one; engine quoted: packets quoted inside the four ICMPv6 error messages (generated ones and complete 1000 - 3000 octet ones), the typed views' as_lax_ip_slice() against LaxIpSlice::from_slice(invoking_packet())",
+                "the first header or recorded a stop error; distinct = distinct (entry point, layer sequence, stop error class, stop layer); engine big: the same judgement on packets whose true sizes lie around 2^16 (65535 -/+ header sizes, 65536, 70 000, 131 072: where 16 bit length arithmetic would wrap); engines bytesweep / wordsweep: one header byte of a clean packet through all 256 values, one aligned 16 bit header word through all 65 536 values; where strict parsing succeeds the packet-level accessor methods of the lax result must answer like those of the strict one; engine quoted: packets quoted inside the four ICMPv6 error messages (generated ones and complete 1000 - 3000 octet ones), the typed views' as_lax_ip_slice() against LaxIpSlice::from_slice(invoking_packet()); a lax stop error has to describe the fault it records (layer, offset, byte counts, length source: the truthfulness rules of C07)",
         "assumptions": COMMON_ASSUME + [
             "reference decoder R in lax mode (DESIGN appendix B) incl. the documented relaxations (IPv4 total_len / IPv6 "
             "payload_len / MACsec short length / UDP length fall back to the slice)",
@@ -90,7 +90,7 @@ PROPS = {
                 "ether types) decoded by PacketHeaders and SlicedPacket (and LaxPacketHeaders / LaxSlicedPacket) from the same bytes; "
                 "headers, stop errors, verdict and remaining payload range compared; where the reference decoder's struct-mode and "
                 "slice-mode walks of the extension chain differ the struct result is judged against the struct-mode walk (computed "
-                "permitted difference); distinct = distinct (entry point, layer sequence, outcome, payload kind); engine api: the variant accessors of LinkHeader / NetHeaders / TransportHeader / NetSlice answer exactly for the variant decoded; engine big: the same judgement on packets whose true sizes lie around 2^16 (65535 -/+ header sizes, 65536, 70 000, 131 072: where 16 bit length arithmetic would wrap); engines bytesweep / wordsweep: one header byte of a clean packet through all 256 values, one aligned 16 bit header word through all 65 536 values",
+                "permitted difference); distinct = distinct (entry point, layer sequence, outcome, payload kind); engine api: the variant accessors of LinkHeader / NetHeaders / TransportHeader / NetSlice answer exactly for the variant decoded; engine big: the same judgement on packets whose true sizes lie around 2^16 (65535 -/+ header sizes, 65536, 70 000, 131 072: where 16 bit length arithmetic would wrap); engines bytesweep / wordsweep: one header byte of a clean packet through all 256 values, one aligned 16 bit header word through all 65 536 values; engine jumbo: IPv6 packets whose hop-by-hop header starts with an RFC 2675 jumbo payload option (true size, less, more, nonsense), mostly with payload length 0, from the IP, ether type and Ethernet start points",
         "assumptions": COMMON_ASSUME + [
             "the conversion image of a slicing result (observe::whole::to_header_image) mirrors what to_header() keeps: all "
             "decoded field values, none of the byte offsets",
@@ -104,6 +104,7 @@ PROPS = {
             "api.c04.net_slice_accessors": 10000, "api.c04.transport_accessors": 10000,
             "big_cases": 5000,
             "bytesweep_cases": 100000, "wordsweeps": 16,
+            "jumbo.cases": 5000, "jumbo.payload_length_zero": 2000,
         },
     },
     "C06": {
@@ -223,7 +224,7 @@ PROPS = {
                 "first header drawn from {0,43,44,51,60,17,59,255} = 3 831 624 configurations, plus random links, set_next_headers(n) "
                 "for all 251 non-extension n x all presence combinations, IPv4 auth chains and the IpHeaders/NetHeaders wrappers; "
                 "oracle = independent walk of the struct + independent parser of the written bytes; distinct = distinct (engine, "
-                "presence combination, walk outcome) signatures; every chain is also walked and written through the IpHeaders wrapper (must agree with the extension walk started at the base header's field); engine api: which protocol numbers are extension headers (IANA list), Ipv6RoutingExtensions::header_len; announced bounds: header_len() of generated chains (smallest / largest / random header sizes) inside [MIN_LEN, MAX_LEN] of Ipv6Extensions / Ipv6RoutingExtensions / Ipv4Extensions / IpHeaders, bounds attained, a MAX_LEN buffer takes every walkable chain",
+                "presence combination, walk outcome) signatures; every chain is also walked and written through the IpHeaders wrapper (must agree with the extension walk started at the base header's field); engine api: which protocol numbers are extension headers (IANA list), Ipv6RoutingExtensions::header_len; announced bounds: header_len() of generated chains (smallest / largest / random header sizes) inside [MIN_LEN, MAX_LEN] of Ipv6Extensions / Ipv6RoutingExtensions / Ipv4Extensions / IpHeaders, bounds attained, a MAX_LEN buffer takes every walkable chain; builder door: PacketBuilder::ip(IpHeaders::Ipv6(..)) with every link stale, through write / write_to_vec / write_to_slice, must emit the RFC 8200 chain ending in n octet for octet; IPv4 builder door: size() against the octets emitted by the three output doors for base headers with options and stale links",
         "assumptions": COMMON_ASSUME + ["the reference walk in harness/src/monitors/c12.rs states RFC 8200 order and the struct's documented layout"],
         "coverage_extra": {"exhaustive_subdomains": {"ipv6 presence x links over S": 3831624}},
         "runs": {"quick": [dict(CHK), {"flavour": "rel", "scale": 0.25}], "thorough": [dict(CHK), {"flavour": "rel", "scale": 0.5}]},
@@ -235,6 +236,8 @@ PROPS = {
             "decoded_same_through_all_doors": 5000,
             "set_next_headers_from_prelinked_ok": 1000,
             "api.c12.announced_bounds_checked": 300, "api.c12.largest_chain": 5,
+            "builder_door.links_stale_chain_to_n": 5000,
+            "builder_door.ipv4_size_and_link": 1000,
         },
     },
     "C13": {
@@ -244,7 +247,7 @@ PROPS = {
                 "option areas (EXHAUSTIVE: all byte strings of length 0..3 and every (kind, length octet, octets left) triple; grammar "
                 "generated, random, mutated encodings) through TcpOptionsIterator / try_from_slice / set_options_raw / header slices; oracle = "
                 "independent RFC 9293/2018/7323 encoder + parser (refmodel/tcpopts.rs); rest() before/after every item, error fields, "
-                "exhaustion, step budget; distinct = distinct (engine, item kind sequence, outcome) signatures; engine api: the trait doors of TcpOptions (TryFrom<&[u8]>, Deref, AsRef/AsMut, Eq/Ord/Hash over the live bytes only, as_mut_slice) and the deprecated TcpHeader accessors; size_hint() in front of every next() brackets the items still to come",
+                "exhaustion, step budget; distinct = distinct (engine, item kind sequence, outcome) signatures; engine api: the trait doors of TcpOptions (TryFrom<&[u8]>, Deref, AsRef/AsMut, Eq/Ord/Hash over the live bytes only, as_mut_slice) and the deprecated TcpHeader accessors; size_hint() in front of every next() brackets the items still to come; rejected lists also through the TryFrom<&[TcpOptionElement]> door (same required size), lists of up to 67 elements; a clone of the iterator taken after the first next() continues like the original",
         "assumptions": COMMON_ASSUME + [
             "a SACK element with gaps in its block array ([None, Some, None]) is compacted on the wire (the format cannot express the gap): the compacted element is demanded",
             "where several rules are broken at once every truthful error description is accepted",
@@ -263,6 +266,7 @@ PROPS = {
             "builder_options.accepted": 1000, "builder_options.replaced_earlier_options": 1000,
             "header_owned_paths.agree": 10000,
             "size_hints_checked": 1000000,
+            "lists.more_than_40_elements": 2000, "lists.rejected_by_trait_door_too": 100000,
         },
     },
     "C14": {
@@ -273,7 +277,7 @@ PROPS = {
                 "IpAuthHeader::new/set_raw_icv, Ipv6RawExtHeader::new_raw/set_payload, Ipv4Options, TcpHeader::set_options_raw, "
                 "ArpPacket::new/set_hw_addrs/set_protocol_addrs, PacketBuilder payloads for every transport x IP version); probes {0,1,limit-4..limit+4, alignment neighbours, 2^16+-2, 2^32+-2, "
                 "usize::MAX}; the true limit of each row is derived from the wire field width in the monitor; huge payloads are NORESERVE "
-                "zero mappings (accept side of the 2^32 limits in thorough only); distinct = distinct (API, below/at/above limit class); accepted IPv6 upper-layer lengths >= 2^16 must be encoded exactly: checksum through six TCP doors and ICMPv6 compared with the reference that uses the 32 bit length; engine tcp_elements: option element lists around the 40 octet limit incl. SACKs with holes through three doors; option-area lengths also around the values that wrap onto an acceptable one when narrowed to 8 / 16 bit",
+                "zero mappings (accept side of the 2^32 limits in thorough only); distinct = distinct (API, below/at/above limit class); accepted IPv6 upper-layer lengths >= 2^16 must be encoded exactly: checksum through six TCP doors and ICMPv6 compared with the reference that uses the 32 bit length; engine tcp_elements: option element lists around the 40 octet limit incl. SACKs with holes through three doors; option-area lengths also around the values that wrap onto an acceptable one when narrowed to 8 / 16 bit; rejected lengths are probed on headers that already hold a value (unchanged-on-error is only visible then)",
         "assumptions": COMMON_ASSUME + ["huge payloads are read-only zero mappings: their content is irrelevant for the limit rules"],
         "runs": {"quick": [dict(CHK, shards=8)], "thorough": [dict(CHK, shards=8)]},
         "mandatory": {"accepted.*": 10000, "rejected.*": 10000, "macsec.unknown_fallback": 100, "macsec.encoded_exactly": 100,
@@ -284,6 +288,7 @@ PROPS = {
             "pseudo6_exact.TcpSlice::calc_checksum_ipv6": 8, "pseudo6_exact.Icmpv6Type::calc_checksum": 8,
             "tcp_elements.sack_with_hole": 1000, "accepted.TcpOptions::try_from_elements": 1000, "rejected.TcpHeader::set_options": 1000, "rejected.PacketBuilder::tcp().options": 1000,
             "pseudo4_exact": 32, "accepted.TcpHeaderSlice::calc_checksum_ipv4_raw": 32, "rejected.TcpSlice::calc_checksum_ipv4": 8,
+            "rejected.TransportHeader::update_checksum_ipv6(unchanged)": 3,
         },
         "min_distinct": {"accepted.*": 36, "rejected.*": 36},
     },
@@ -294,7 +299,7 @@ PROPS = {
                 "flags/fragment offset, IPv6 fragment offset, MACsec TCI/SL, all 256 IPv4 TOS / IGMPv3 octet-8 values, all 2^20 flow labels; "
                 "encode side: every value of each field against all-zeros/all-ones/random neighbours, diff against a baseline header must stay "
                 "inside the field's mask; oracle = independent mask table from IEEE 802.1Q/802.1AE, RFC 791/2474/3168/8200/3376; distinct = "
-                "distinct (type, accepted/rejected class) / (header, field) signatures; engine api: TryFrom / From / Display of all nine bounded types over their complete raw domain, MacsecShortLen::from_len, the named DSCP code points (IpDscpKnown) against the RFC values; MacsecHeader::set_payload_len over small lengths, powers of two and the largest usize values",
+                "distinct (type, accepted/rejected class) / (header, field) signatures; engine api: TryFrom / From / Display of all nine bounded types over their complete raw domain, MacsecShortLen::from_len, the named DSCP code points (IpDscpKnown) against the RFC values; MacsecHeader::set_payload_len over small lengths, powers of two and the largest usize values; every value of a VLAN tag's 16 bit control word through the four packet-level vlan_ids() copies",
         "assumptions": COMMON_ASSUME + ["acceptance decisions of decoders (MACsec version bit, IHL, ...) are counted, not judged here (C03)"],
         "coverage_extra": {"exhaustive_subdomains": {"Ipv6FlowLabel raw u32": 4294967296, "VlanId raw u16": 65536, "IpFragOffset raw u16": 65536}},
         "runs": {"quick": [dict(CHK)], "thorough": [dict(CHK)]},
@@ -309,6 +314,7 @@ PROPS = {
             "exhaustive.enc.SingleVlanHeader.vlan_id": 4096, "exhaustive.enc.MacsecHeader.short_len": 64,
             "exhaustive.enc.IgmpMembershipQueryWithSources.qrv": 8, "igmp_setters.ok": 68096, "ipv6_tc_setters.ok": 17408,
             "api.c15.sweeps": 16,
+            "api.c15.vlan_ids_tag_values": 65536,
         },
     },
     "C09": {
@@ -319,7 +325,7 @@ PROPS = {
                 "header, UDP/TCP over IPv4/IPv6 from structs and slices, ICMPv4, ICMPv6 (+ is_checksum_valid on valid / one-bit-off / random "
                 "messages), IGMP, TransportHeader::update_checksum_*, PacketBuilder output; computed-zero UDP cases are constructed; oracle = "
                 "independent RFC 1071 sum + pseudo header composers (refmodel/checksum.rs); distinct = distinct (routine, length class, "
-                "alignment, carry class) signatures; after add_{4,8,16}bytes(&mut self) the receiver holds its old sum or the returned one",
+                "alignment, carry class) signatures; after add_{4,8,16}bytes(&mut self) the receiver holds its old sum or the returned one; contents include carry stress (every 4 / 8 octet word all ones or a small number near the count of all-ones words, either byte order: sums next to the multiples of 2^32 / 2^64); every second TCP case on a reused header (options shortened after a full non-zero option area)",
         "assumptions": COMMON_ASSUME + [
             "helper results are compared in memory order (the crate's documented convention: callers apply to_be())",
             "UDP over IPv6 jumbograms and TCP/ICMPv6 lengths above ~70000 bytes are not judged here (C14 probes the limits)",
@@ -346,7 +352,7 @@ PROPS = {
                 "injected: a writer failing at byte k for all k in 0..=n+1 in two modes (partial chunk accepted / chunk rejected), an output "
                 "slice of every length 0..=n+1 ending at a PROT_NONE page with canaries in front, a reader failing at byte k for all k up "
                 "to the bytes the decoder needs, a LimitedReader limit for all 0..=n+2 over a counting reader; evaluations = injected "
-                "faults judged; distinct = distinct (kind, type, encoded length) signatures; engine skip: Ipv6Header::skip_header_extension / skip_all_header_extensions over seekable sources that end or fail at every position of the chain (fault surfaced iff a skipped header is not completely readable; cursor position on success); sources / sinks that hand out / take 1 - 3 octets per call; a space error's numbers as restated by BuildSliceWriteError::from and both messages",
+                "faults judged; distinct = distinct (kind, type, encoded length) signatures; engine skip: Ipv6Header::skip_header_extension / skip_all_header_extensions over seekable sources that end or fail at every position of the chain (fault surfaced iff a skipped header is not completely readable; cursor position on success); sources / sinks that hand out / take 1 - 3 octets per call; a space error's numbers as restated by BuildSliceWriteError::from and both messages; LimitedReader driven directly over call histories (fitting reads, refused reads, start_layer) against a budget model",
         "assumptions": COMMON_ASSUME + [
             "the complete encoding a partial write must be a prefix of is what the same value writes into a Vec (byte-level correctness of encodings is C08's job)",
         ],
@@ -360,6 +366,7 @@ PROPS = {
             "writers.multi_part_fault.Ipv4Header": 10000, "writers.multi_part_fault.TcpHeader": 10000,
             "skip.all_fault_surfaced": 10000, "skip.step_fault_surfaced": 10000, "skip.all_ok": 10000,
             "readers.chunked_source": 10000, "writers.short_write_sinks": 100000,
+            "limited.history_steps": 10000, "limited.history_refusals": 1000,
         },
         "min_distinct": {"writers.values.*": 20, "readers.values.*": 24},
     },
@@ -371,7 +378,7 @@ PROPS = {
                 "payload lengths at the IPv4/IPv6 length limits +-2; judged: size() vs bytes written, three writers identical, independent "
                 "reference decoder and SlicedPacket accept and agree, configured values recovered, derived lengths and all checksums "
                 "(independent RFC 1071 reference), unencodable configurations rejected; distinct = distinct (engine, link, vlan depth, net "
-                "kind, transport kind) signatures; the sink of the write door accepts at most 1 - 3 octets per call in three cases of four (short writes)",
+                "kind, transport kind) signatures; the sink of the write door accepts at most 1 - 3 octets per call in three cases of four (short writes); payload contents all ones / carry stress in three cases of eight",
         "assumptions": COMMON_ASSUME + [
             "reference decoder R (strict) and refmodel/checksum.rs, refmodel/tcpopts.rs",
             "ICMPv4 timestamp messages are only judged with the payload their fixed size admits",
@@ -384,6 +391,7 @@ PROPS = {
             "paths.configs": 100000,
             "tcp.options_replaced_by_second_call": 1000,
             "writer_door.sink_takes_1_to_3_octets_per_call": 20000, "writer_door.sink_takes_all": 5000,
+            "payloads.all_ones": 5000, "payloads.carry_stress": 10000,
         },
     },
     "C17": {
